@@ -53,6 +53,10 @@ Inductive dres := DNeed | DErr | DPanic | DFrame (id : N) (op : tree) (ctrls : l
 
 (* `as i32` of a u64, reported as the two's-complement bit pattern mod 2^32 *)
 Definition as_i32 (n : N) : N := n mod 2^32.
+(* MessageID ::= INTEGER (0 .. maxInt), maxInt = 2^31 - 1 (RFC 4511 4.1.1): at most 8 content octets here, the sign bit clear, the value in range *)
+Definition id_ok (ib : list byte) : bool :=
+  (length ib <=? 8)%nat && (match ib with [] => true | b0 :: _ => bN b0 <? 128 end) && (parse_uint ib <=? 2147483647).
+
 
 Definition envelope (tags : list tree) : outcome (option (N * tree * list ctrl)) :=   (* Ok None = decoding_error *)
   match rev tags with
